@@ -45,7 +45,7 @@ PROGRAM = """(set 'counter 0)
 FORM = {"slicelist": "(op-slicelist)", "quotecmp": "(op-quotecmp)", "slicefull": "(op-slicefull)", "slicetail": "(op-slicetail)", "slicecdr": "(op-slicecdr)", "sort": "(op-sort)", "cdrsort": "(op-cdrsort)", "slicepush": "(op-slicepush)", "append0": "(op-append0)", "restsort": "(op-restsort)",
         "macroarg": "(op-macroarg)", "define": "(op-define)", "read": "(op-read)", "reload": "(reload)",
         "applyrest": "(op-applyrest)", "applycdr": "(op-applycdr)", "applyreq": "(op-applyreq)", "funcallopt": "(op-funcallopt)",
-        "mapsort": "(op-mapsort)", "foldsort": "(op-foldsort)"}
+        "mapsort": "(op-mapsort)", "foldsort": "(op-foldsort)", "hostwiden": "(host-widen)", "hostcall": "(host-call)"}
 CFG = """SPECIFICATION Spec
 CONSTANTS R = %d
  LEN = %d
@@ -58,7 +58,7 @@ CHECK_DEADLOCK FALSE
 
 def show(model_result, op):
     """the printed form the real interpreter gives for a model result"""
-    if op in ("define", "reload"):
+    if op in ("define", "reload", "hostwiden", "hostcall"):
         return str(model_result[0])
     if op == "slicepush":
         return "(vector %s)" % " ".join(str(x) for x in model_result)
